@@ -57,7 +57,14 @@ def payloadStep (pre : Snap) (t : Track) (s : Step) : Bool :=
 def resolvedFiredStep (pre : Snap) (t : Track) (s : Step) : Bool :=
   !(track pre t s).acct || !s.post.idle || s.post.outstanding.all (· ∈ s.post.queue)
 
+/-- With acknowledgements disabled a send never fails for want of a response: the empty answer of
+    the client (request handed to the connection) is its success. -/
+def acks0Step (cfg : Cfg) (_pre : Snap) (_t : Track) (s : Step) : Bool :=
+  cfg.acks != producerAckNotRequired ||
+    s.obs.all (fun o => match o with | .fire _ (.err .noResponse) => false | _ => true)
+
 def atMostOnce (cfg : Cfg) (tr : List Step) : Bool := checkTrace cfg atMostOnceStep tr
+def acks0 (cfg : Cfg) (tr : List Step) : Bool := checkTrace cfg (acks0Step cfg) tr
 def successAcked (cfg : Cfg) (tr : List Step) : Bool := checkTrace cfg (successAckedStep cfg) tr
 def payloads (cfg : Cfg) (tr : List Step) : Bool := checkTrace cfg payloadStep tr
 def resolvedFired (cfg : Cfg) (tr : List Step) : Bool := checkTrace cfg resolvedFiredStep tr
